@@ -432,18 +432,21 @@ structure ListRes where
 def hdrOf (committed : Nat) (kvs : List (Bytes × Bytes × Nat)) : Nat :=
   kvs.foldl (fun h kv => max h kv.2.2) committed
 
+/-! The range bounds of `List` / `Count` / `GetPartitions` are encoded by `encodeBound` (KB.Coder: the model of
+`backend.encodeRangeBound`, range.go, /repo 146f0bb). -/
+
 /-- `Backend.List`. -/
 def doList (c : Cfg) (s : BState) (key stop : Bytes) (rev limit : Nat) : ScanRes ListRes :=
   if stop.isEmpty then .error .invalid else
   let reqRev := if rev == 0 then s.committed else rev
   if cmp key stop != .lt then .error .invalid else
   if limit > 0 then
-    match scanLimited c s.store (encode key 0) (encode stop 0) reqRev (limit + 1) with
+    match scanLimited c s.store (encodeBound key) (encodeBound stop) reqRev (limit + 1) with
     | .ok kvs => .ok { hdr := hdrOf s.committed (kvs.take limit), more := kvs.length > limit, kvs := kvs.take limit }
     | .error e => .error e
     | .panic => .panic
   else
-    match scanParts c s.store (encode key 0) (encode stop 0) reqRev with
+    match scanParts c s.store (encodeBound key) (encodeBound stop) reqRev with
     | .ok outs => .ok { hdr := hdrOf s.committed outs.flatten, more := false, kvs := outs.flatten }
     | .error e => .error e
     | .panic => .panic
@@ -451,7 +454,7 @@ def doList (c : Cfg) (s : BState) (key stop : Bytes) (rev limit : Nat) : ScanRes
 /-- `Backend.Count`. -/
 def doCount (c : Cfg) (s : BState) (key stop : Bytes) : ScanRes (Nat × Nat) :=
   if !c.etcdCompat then .ok (s.committed, 0) else
-  match scanParts c s.store (encode key 0) (encode stop 0) s.committed with
+  match scanParts c s.store (encodeBound key) (encodeBound stop) s.committed with
   | .ok outs => .ok (s.committed, outs.flatten.length)
   | .error e => .error e
   | .panic => .panic
@@ -472,7 +475,7 @@ def alignBorder (b : Bytes) : Bytes :=
 
 /-- `GetPartitions`: the advertised partition keys (engine borders aligned to raw keys). -/
 def doPartitions (c : Cfg) (key stop : Bytes) : List Bytes :=
-  let ps := partitions c.splits (encode key 0) (encode stop 0)
+  let ps := partitions c.splits (encodeBound key) (encodeBound stop)
   -- the engine may hand its partitions over in any order (`shuffle`): they are advertised in key order
   let ps := sortParts (if c.shuffle then ps.reverse else ps)
   (ps.mapIdx (fun i p => if i == 0 then p.1 else alignBorder p.1)) ++ (ps.getLast?.map (·.2)).toList
